@@ -164,7 +164,7 @@ def _kw(c):
 def _flux(rng, n, pattern):
     i = np.arange(n, dtype='d')
     if pattern == 'const':
-        return np.full(n, rng.choice([1.0, -3.5, 12.25, rng.uniform(0.5, 200)])), 0.0
+        return np.full(n, rng.choice([1.0, -3.5, 12.25, 250.0, 2.0, rng.uniform(0.5, 200)])), 0.0
     a = rng.uniform(5, 50)
     b = rng.uniform(0.5, 3)
     per = rng.uniform(60, 200)
@@ -561,6 +561,15 @@ def _oracle(c, real, meta=True):
         tol = 1e-6 if tag.get('zero') in ('none', 'singles', 'runs', 'ends') else 1e-3
         if d > tol * max(1.0, abs(cval)):
             out.append(('constant-not-constant', 'constant spectrum %r comes out as %r at a good pixel' % (cval, float(fl[good][np.abs(fl[good] - cval).argmax()]))))
+    if tag.get('flux') == 'const' and tag.get('zero') == 'none' and single and not good.any() and c['flux'][0][0] != 0:
+        # "a constant spectrum stays constant": with every input pixel good, an output grid with pixels well inside the data
+        # cannot come back without a single usable pixel
+        xin = c['x'][0]
+        dxx = tag.get('dx', 1e-4)
+        inside = [p for p, v in enumerate(c['newx']) if xin[0] + 2 * dxx < v < xin[-1] - 2 * dxx]
+        if len(inside) >= 3:
+            out.append(('constant-lost', 'constant spectrum %r, every input pixel good: none of the %d output pixels inside the data has '
+                        'positive inverse variance (flux there: %r)' % (c['flux'][0][0], len(inside), float(fl[inside[0]]))))
     if (tag.get('flux') == 'smooth' and tag.get('grid') == 'same' and tag.get('zero') == 'none' and single and method != 'damp'
             and good.any()):
         fin = np.array(c['flux'][0])
@@ -925,6 +934,9 @@ def _preprocess(ctx):
         width = rng.uniform(2.5, 5.0) * dx
         flux = np.array([10.0 + 30.0 * np.exp(-0.5 * ((loglam - L) / width) ** 2) * (loglam > 0) for L in centers])
         ivar = np.full((nobj, npix), 4.0) * (loglam > 0)
+        intflux = rng.random() < 0.2
+        if intflux:
+            flux = np.rint(flux).astype(rng.choice(['i8', 'i4']))       # raw counts: an integer flux array holds the same kind of spectrum
         # dead fibres (no good pixel at all) in between: the other objects keep their own redshift
         dead = [k for k in range(nobj) if nobj > 1 and rng.random() < 0.3]
         if len(dead) == nobj:
@@ -966,6 +978,7 @@ def _preprocess(ctx):
         ctx.seen(case)
         ctx.count('preprocess:nobj=%d' % nobj)
         ctx.count('preprocess:blueshifted-objects', int((zs < 0).sum()))
+        ctx.count('preprocess:flux-dtype:' + str(flux.dtype))
         lines = [{'p': 'C11', 'op': 'shift', 'loglam': _bits(loglam), 'row': _bits(flux[k]), 's': F(np.log10(1.0 + zs)[k])} for k in range(nobj)]
         for k, m in enumerate(core.driver(lines)):
             impl = [_bits(calls[k][0]), _bits(calls[k][1])] if k < len(calls) else None
@@ -1028,7 +1041,8 @@ def _directed(rng):
     cases.append(_case(rng, kind='1d', fluxp='smooth', zerop='none', gridp='same', method=None, ivp='flat'))
     cases.append(_case(rng, kind='1d', fluxp='smooth', zerop='none', gridp='same', method=None, ivp='none'))
     cases.append(_case(rng, kind='1d', fluxp='const', zerop='singles', gridp='shift'))
-    cases.append(_case(rng, kind='1d', fluxp='const', ivp='none', zerop='none'))
+    for _ in range(3):
+        cases.append(_case(rng, kind='1d', fluxp='const', ivp='none', zerop='none', gridp=rng.choice(['same', 'shift', 'narrower', 'wider'])))
     for zp in ['none', 'singles', 'runs', 'ends', 'fewgood']:
         cases.append(_case(rng, kind='2d', zerop=zp))
     cases.append(_case(rng, kind='2d', fluxp='const'))
